@@ -1149,6 +1149,10 @@ func parseBMPMessage(data []byte, optionsFunc func(BMPPeerHeader) []*bgp.Marshal
 	if err != nil {
 		return nil, err
 	}
+	if msg.Header.Length < BMP_HEADER_SIZE || int64(msg.Header.Length) > int64(len(data)) {
+		// re-slicing would reach into the capacity behind the caller's data
+		return nil, fmt.Errorf("not all data bytes are available")
+	}
 	data = data[BMP_HEADER_SIZE:msg.Header.Length]
 
 	switch msg.Header.Type {
